@@ -398,9 +398,52 @@ func (fv *FV) applyModifies(st *State, mods []*Expr, env *Env) {
 
 func (fv *FV) applyModify(st *State, m *Expr, env *Env) {
 	switch {
+	case m.Op == "id" && m.Name == "callerfresh":
+		// trusted callees only: may write objects the caller allocated since its own entry
+		keys := make([]string, 0)
+		for k := range fv.heapsUsed {
+			keys = append(keys, k)
+		}
+		sortStrings(keys)
+		for _, k := range keys {
+			old := fv.heapK(st, k, fv.heapsUsed[k])
+			n := fv.havocHeap(st, k)
+			st.assume(fmt.Sprintf("(forall ((r Int)) (! (=> (<= r alloc!entry) (= (select %s r) (select %s r))) :pattern ((select %s r))))", n, old, n))
+		}
+		return
 	case m.Op == "id" && m.Name == "allheaps":
-		fv.touchAllHeaps(st, "callee")
+		fv.touchAllHeaps(st, "callee", nil)
 		fv.havocAllHeaps(st)
+		return
+	case m.Op == "call" && m.Name == "allexcept":
+		ex := map[string]bool{}
+		for _, a := range m.Args {
+			for _, k := range fv.heapKeysOfTypeName(a.Name) {
+				ex[k] = true
+			}
+		}
+		fv.touchAllHeaps(st, "callee", ex)
+		keys := make([]string, 0)
+		for k := range fv.heapsUsed {
+			if !ex[k] {
+				keys = append(keys, k)
+			}
+		}
+		sortStrings(keys)
+		for _, k := range keys {
+			fv.havocHeap(st, k)
+		}
+		return
+	case m.Op == "call" && m.Name == "anyobj":
+		ik := "iface:" + m.Args[0].Name
+		if fs := fv.frame; fs != nil && !fs.everything && !fs.heaps[ik] && !(fs.allHeaps) {
+			fv.nTouch++
+			fv.addObl(st, "frame", fmt.Sprintf("frame:callee-anyobj#%d@%s", fv.nTouch, st.fr.fn.Name()), "false", "callee may modify any object behind a "+m.Args[0].Name, nil)
+		}
+		for _, k := range fv.implementorHeaps(m.Args[0].Name) {
+			fv.heap(st, k)
+			fv.havocHeap(st, k)
+		}
 		return
 	case m.Op == "id" && m.Name == "everything":
 		fv.touchEverything(st, "modifies-everything")
@@ -436,7 +479,7 @@ func (fv *FV) applyModify(st *State, m *Expr, env *Env) {
 	case m.Op == "call" && m.Name == "heap":
 		// heap("T"): the whole heap of a sort (coarse region)
 		for _, k := range fv.heapKeysOfTypeName(m.Args[0].Name) {
-			if fv.frame != nil && !fv.frame.everything && !fv.frame.heaps[k] {
+			if fs := fv.frame; fs != nil && !fs.everything && !fs.heaps[k] && !(fs.allHeaps && !fs.except[k]) {
 				fv.nTouch++
 				fv.addObl(st, "frame", fmt.Sprintf("frame:callee-heap#%d@%s", fv.nTouch, st.fr.fn.Name()), "false", "callee modifies the whole heap of "+m.Args[0].Name, nil)
 			}
@@ -507,7 +550,13 @@ func (fv *FV) havocObject(st *State, v Val, env *Env) {
 		// object behind an interface: unknown concrete type: havoc that index in every heap
 		b := fv.asTermSpec(env, v)
 		ref := fv.define(st, "ifobj", "Int", fmt.Sprintf("(ival %s)", b.T))
-		fv.touch(st, "", ref, "callee-iface-object")
+		// the object behind a non-library interface value is not a library object
+		ik := ""
+		if n, ok := v.Typ.(*types.Named); ok {
+			ik = "iface:" + fv.eng.normQual(n.Obj().Pkg()) + "." + n.Obj().Name()
+		}
+		fv.touchUnless(st, ik, ref, "callee-iface-object", fmt.Sprintf("(not (lib_type (ityp %s)))", b.T))
+		// only the struct object whose pointer type is the dynamic type can be meant
 		keys := make([]string, 0)
 		for k := range fv.heapsUsed {
 			keys = append(keys, k)
@@ -515,7 +564,13 @@ func (fv *FV) havocObject(st *State, v Val, env *Env) {
 		sortStrings(keys)
 		for _, k := range keys {
 			srt := fv.heapsUsed[k]
-			fv.setHeapK(st, k, srt, fmt.Sprintf("(store %s %s %s)", fv.heapK(st, k, srt), ref, fv.fresh("ifo", srt)))
+			si, isStruct := fv.u.structs[srt]
+			if !isStruct || k != srt || si.GoType == nil {
+				continue
+			}
+			id := fv.u.typeID(types.NewPointer(si.GoType))
+			h := fv.heapK(st, k, srt)
+			fv.setHeapK(st, k, srt, fmt.Sprintf("(ite (= (ityp %s) %d) (store %s %s %s) %s)", b.T, id, h, ref, fv.fresh("ifo", srt), h))
 		}
 	default:
 		fv.specErr("modifies: unsupported target type %s", v.Typ)
